@@ -22,12 +22,13 @@ INPUT_CFG = """SPECIFICATION Spec
 CONSTANTS
   MaxRules = %d
   Kinds = {%s}
-  Cfgs = {"none", "same", "mixed"}
+  Cfgs = {%s}
   Twos = {FALSE, TRUE}
   Grps = {FALSE, TRUE}
 INVARIANTS EmitCase
 CHECK_DEADLOCK FALSE
 """
+CFGS = '"none", "same", "mixed"'
 MCC_CFG = """SPECIFICATION SpecC
 CONSTANTS
   Shapes = {}
@@ -188,11 +189,14 @@ def run(ctx, cases_override=None):
                 raise MachineryError("vacuity guard %s: not reachable in the model" % inv)
     # ---------------------------------------------------------------- GEN 1: inputs
     if cases_override is None:
-        g = ctx.tlc("ScanInput", "c11_in.cfg", files={"c11_in.cfg": INPUT_CFG % (3 if th else 2, KINDS)}, workers=4, timeout=3000, tag="gen-inputs")
+        g = ctx.tlc("ScanInput", "c11_in.cfg", files={"c11_in.cfg": INPUT_CFG % (3 if th else 2, KINDS, CFGS)}, workers=4, timeout=3000, tag="gen-inputs")
         inputs = [v[0] for v in prints(g, "CASE")]
-        g2 = ctx.tlc("ScanInput", "c11_in2.cfg", files={"c11_in2.cfg": INPUT_CFG % (6, KINDS)}, workers=4, simulate=(50 if th else 12),
+        g2 = ctx.tlc("ScanInput", "c11_in2.cfg", files={"c11_in2.cfg": INPUT_CFG % (6, KINDS, CFGS)}, workers=4, simulate=(50 if th else 12),
                      depth=7, deadlock=False, timeout=3000, tag="gen-inputs-long")
         longer = [v[0] for v in prints(g2, "CASE") if len(v[0]["rules"]) > (3 if th else 2)]
+        # two unreachable Prometheus servers: every online check is two jobs per rule (same reporter, same lines)
+        g3 = ctx.tlc("ScanInput", "c11_in3.cfg", files={"c11_in3.cfg": INPUT_CFG % (2 if th else 1, KINDS, '"prom2"')}, workers=4, timeout=3000, tag="gen-inputs-prom2")
+        longer += [v[0] for v in prints(g3, "CASE")]
         seen, uniq = set(), []
         for c in inputs + longer:
             k = json.dumps(c, sort_keys=True)
@@ -262,7 +266,9 @@ def run(ctx, cases_override=None):
                 combos += [[2, 2, ctx.seed * 7 + 1], [3, 4, ctx.seed * 7 + 2], [2, 16, ctx.seed * 7 + 3], [64, 16, ctx.seed * 7 + 4]]
             else:
                 combos = [[2, 2, ctx.seed * 100 + n + 1], [3, 4, ctx.seed * 100 + n + 11], [10, 16, 0], [64, 16, ctx.seed * 100 + n + 21], [2, 1, ctx.seed * 100 + n + 31]]
-            bin_inputs.append({"cfg": inputs[k]["cfg"], "rules": inputs[k]["rules"], "two": inputs[k]["two"], "grp": inputs[k]["grp"], "combos": combos})
+            mode = inputs[k].get("mode") or ["lint", "ci", "lint-dups", "lint-minsev"][n % 4]
+            bin_inputs.append({"cfg": inputs[k]["cfg"], "rules": inputs[k]["rules"], "two": inputs[k]["two"], "grp": inputs[k]["grp"],
+                               "combos": combos, "mode": mode})
         bpath = write_ndjson(ctx.path("c11_bin_inputs.ndjson"), bin_inputs)
         btrace = ctx.path("c11_bin_trace.ndjson")
         ctx.vh("exec-c11-bin", bpath, btrace, pint, timeout=3000)
@@ -274,9 +280,10 @@ def run(ctx, cases_override=None):
             w = v["what"]
             c = dict(bin_inputs[fid - 1])
             c["_bin"] = True
+            c["mode"] = bin_inputs[fid - 1]["mode"]
             c["combos"] = [[w["workers"], w["procs"], w["seed"]]] * 20
-            viols.append({"sig": sig_of(v), "what": "real binary, cfg=%s rules=%s two=%s: --workers %s GOMAXPROCS=%s jitter=%s %s" % (
-                v["cfg"], v["rules"], v["two"], w["workers"], w["procs"], w["seed"],
+            viols.append({"sig": sig_of(v), "what": "real binary (%s), cfg=%s rules=%s two=%s: --workers %s GOMAXPROCS=%s jitter=%s %s" % (
+                bin_inputs[fid - 1]["mode"], v["cfg"], v["rules"], v["two"], w["workers"], w["procs"], w["seed"],
                 "reports a DATA RACE" if w["race"] else "differs from --workers 1 in %s (1=stderr 2=json 3=exit)" % w["outputs"]),
                 "case": c, "detail": v})
     if leads and not viols and cases_override is None:
@@ -313,10 +320,12 @@ def run(ctx, cases_override=None):
         "TLC model-checks Report/SortReports/Dedup/renderers on every bag of <=%d tie-rich reports in <=3 jobs: under the stated premise every interleaving renders like the canonical order" % (4 if th else 3),
         "real reports come per job from the in-process pipeline; only order-preserving interleavings (never permutations inside a job) are replayed into the real Summary.Report/SortReports/Dedup/console/JSON code",
         "the real binary is built with -race -tags verif and run with --offline on the same inputs; the jitter hook H4 only yields/sleeps",
-        "the Go stable sort is transcribed for <=20 reports (one insertion-sort block); larger inputs are judged on outputs only",
+        "the Go stable sort is transcribed for <=20 reports (one insertion-sort block); for longer inputs symMerge is not transcribed: the fold is recomputed with the insertion sort only when the comparison is a strict weak order on the input (then every stable sort gives the same sequence), else outputs only",
+        "cfg prom2: two Prometheus servers nobody listens on (127.0.0.1:1/2), checks run online; binary modes: lint, lint --show-duplicates, lint --min-severity=bug, ci on a scratch git repository; watch is not run",
     ], drift=drifts)
 
 
 def replay(ctx, path):
+    os.environ["VERIF_NO_EVIDENCE"] = "1"     # a replay runs no model checking: it must not replace the evidence of a full run
     v = json.load(open(path))
     return run(ctx, cases_override=[v["case"]])
